@@ -22,6 +22,9 @@ pub fn times() -> Vec<(String, TimeSpec)> {
         ("2054-03-05T12:30:15.25Z".into(), TimeSpec::ymdhms(2054, 3, 5, 12, 30, 15).with_nanos(250_000_000)),
         ("1949-12-31T23:59:59.999999999Z".into(), TimeSpec::ymdhms(1949, 12, 31, 23, 59, 59).with_nanos(999_999_999)),
         ("2050-01-01T00:00:00.000000001+01:00".into(), TimeSpec::ymd(2050, 1, 1).with_nanos(1).with_offset(3600)),
+        // the library's own default instants, usable in either field (a value the library knows about is a value like any other)
+        ("1975-01-01T00:00:00Z (default notBefore)".into(), TimeSpec::ymd(1975, 1, 1)),
+        ("4096-01-01T00:00:00Z (default notAfter)".into(), TimeSpec::ymd(4096, 1, 1)),
     ]
 }
 
@@ -157,6 +160,7 @@ pub fn nc_values() -> Vec<(String, NcSpec)> {
         ("permitted dns nested, child first + excluded dns equal up to case".into(), NcSpec { permitted: vec![SubtreeSpec::Dns("a.example.com".into()), SubtreeSpec::Dns("example.com".into())], excluded: vec![SubtreeSpec::Dns("bad.example".into()), SubtreeSpec::Dns("BAD.example".into())] }),
         ("one text permitted as rfc822 and as dns".into(), NcSpec { permitted: vec![SubtreeSpec::Email("example.com".into()), SubtreeSpec::Dns("example.com".into())], excluded: vec![] }),
         ("one text excluded as dns and as rfc822 + a directoryName".into(), NcSpec { permitted: vec![], excluded: vec![SubtreeSpec::Dns("example.com".into()), SubtreeSpec::Email("example.com".into()), SubtreeSpec::Dir(DnSpec(vec![(DnTypeSpec::O, StrKind::Utf8, "example.com".into())]))] }),
+        ("permitted v4 with a mask that is not a prefix (255.0.255.0) + excluded v6 likewise".into(), NcSpec { permitted: vec![SubtreeSpec::Ip(CidrSpec { addr: vec![10, 1, 2, 0], prefix: 24, ctor: CidrCtor::RawHoles })], excluded: vec![SubtreeSpec::Ip(CidrSpec { addr: ipv6_1(), prefix: 64, ctor: CidrCtor::RawHoles })] }),
     ]
 }
 
